@@ -201,7 +201,7 @@ class Judge:
         self.hist[key] = self.hist.get(key, 0) + 1
 
     def viol(self, what, site, tags, args, line):
-        key = tuple(tags)
+        key = tags[0]
         if self.reported.get(key, 0) >= 3:          # same kind of failure on yet another entry point: count only
             if self.ctx.match_known({"site": site, "tags": tags}) is None:
                 self.suppressed += 1
@@ -270,8 +270,13 @@ class Judge:
                 self.cxx_crashes.append(line)          # the C++ operation itself crashes: not the wrapper's doing
                 self.count("oracle: C++ library crash (%s %s)" % (p[3], p[4]))
                 return
+            site, tags = "ppl_%s_%s" % (p[3], p[4]), ["crash", p[1]]
+            if p[4] == "remove_higher_space_dimensions" and "Grid" in p[3]:
+                # Grid::remove_higher_space_dimensions with minimized generators corrupts the grid (KF-C05-14); whether the
+                # C++ clone or the C handle trips over the corrupted object first is not deterministic
+                site, tags = "Grid_remove_higher_space_dimensions", ["crash", "grid_remove_higher_dims_corrupts_object"]
             return self.viol("ppl_%s_%s: %s in the C entry point (or right after it) while the C++ operation on a clone completed" % (p[3], p[4], p[1]),
-                             "ppl_%s_%s" % (p[3], p[4]), ["crash", p[1]], ["--what", "oracle", "--seed", d.get("seed", "1")], line)
+                             site, tags, ["--what", "oracle", "--seed", d.get("seed", "1")], line)
         return self.viol("harness child died: " + line, " ".join(p[2:4]), ["crash", p[1]], ["--what", p[2]], line)
 
     def oom_line(self, line):
@@ -393,14 +398,70 @@ class Judge:
 
 # ---------------------------------------------------------------- the check
 def build_c_interface(ctx):
-    ctx.ensure_ppl()
-    with Lock("ppl"):
-        t = time.time()
-        # SUBDIRS=. : a private copy has no interfaces/C/tests
-        r = sh(["make", "-C", os.path.join(REPO, "interfaces", "C"), "-j16", "SUBDIRS=."])
-        if r.returncode:
-            ctx.fatal("PPL C interface does not build:\n" + r.stdout[-4000:])
-        ctx.cov["ppl_c_build_s"] = round(time.time() - t, 1)
+    # libppl, then `make -C interfaces/C SUBDIRS=.`: the m4 templates regenerate ppl_c_*.cc, ppl_c.h
+    ctx.ensure_ppl(c_interface=True)
+
+
+def translate(ctx, prove=True):
+    """regenerate table + Lean data (+ harness call table); returns (tab, broken, inc_path, inc_hash)."""
+    with Lock("c20"):
+        tt = time.time()
+        tab = c20_table.build_table(REPO, jobs=4)
+        text, strs = c20_table.emit_lean(tab)
+        changed = c20_table.write_if_changed(os.path.join(LEAN, "PPLV", "Gen", "CIfaceTable.lean"), text)
+        with open(os.path.join(BUILD, "c20_table.json"), "w") as f:
+            json.dump(tab, f, sort_keys=True)
+        ctx.cov["translator_s"] = round(time.time() - tt, 1)
+        ctx.cov["translator_cache_hits"] = "%d/%d TUs" % (tab["cacheHits"], tab["tus"])
+        ctx.cov["lean_table_rewritten"] = changed
+        broken = []
+        if prove:
+            tp = time.time()
+            broken = ctx.prove([PROPS])
+            ctx.cov["prove_s"] = round(time.time() - tp, 1)
+            if ctx.tier == "thorough":
+                broken += ctx.leanchecker([PROPS])
+        inc_path, inc_hash = c20_harness.write(tab, os.path.join(BUILD, "c20gen"))
+    return tab, broken, inc_path, inc_hash
+
+
+def harness_binary(ctx, inc_path, inc_hash):
+    flags = ("-I" + os.path.dirname(inc_path), "-DC20_GEN_HASH=0x%s" % inc_hash)
+    tc = time.time()
+    hbin = ctx.compile_harness("c20_ciface.cc", flags=flags, c_iface=True, opt="-O0")
+    ctx.cov["harness_compile_s"] = round(time.time() - tc, 1)
+    return hbin
+
+
+def replay(ctx, path):
+    """bin/check C20 --replay <file>: re-run the recorded failing case on the current tree."""
+    rp = json.load(open(path))
+    print("property=%s what=%s" % (rp.get("property"), rp.get("what")), flush=True)
+    build_c_interface(ctx)
+    tab, _, inc_path, inc_hash = translate(ctx, prove=False)
+    if rp.get("theorem") and not rp.get("harness_args"):
+        thm = rp["theorem"].split(".")[-1]
+        hits = [d for d in diagnose(tab) if d[0] == thm and (rp.get("entry_point") in (d[1], d[4].get("entry")) or d[4].get("class") == rp.get("class"))]
+        for d in hits[:3]:
+            print("  still fails: C20.%s: %s" % (d[0], d[3]))
+        if hits:
+            print("VIOLATION property=C20 replay=%s" % path)
+            return 1
+        print("C20.%s holds for %s on the regenerated table" % (thm, rp.get("entry_point")))
+        return 0
+    hbin = harness_binary(ctx, inc_path, inc_hash)
+    drv = ctx.ensure_pplv("pplv_c20")
+    work = ctx.workdir()
+    a = list(rp.get("harness_args") or ["--what", "all"])
+    if "--seed" not in a:
+        a += ["--seed", str(rp.get("seed", ctx.seed))]
+    jp = os.path.join(work, "journal.txt")
+    ctx.run([hbin] + a, stdout_path=jp, timeout=1500)
+    J = Judge(ctx, tab, REPO, hbin, int(rp.get("seed", ctx.seed)))
+    J.run_lines(open(jp).read())
+    J.judge_disp(drv, work)
+    print("re-ran: c20_ciface %s -> %d events, %d violation(s), %d known finding(s)" % (" ".join(a), J.events, len(ctx.violations), len(ctx.known_hits)))
+    return 1 if ctx.violations else 0
 
 
 def theorem_at(lines, lineno):
@@ -418,22 +479,7 @@ def run(ctx):
     t0 = time.time()
     build_c_interface(ctx)
     seed = ctx.seed
-    with Lock("c20"):
-        tt = time.time()
-        tab = c20_table.build_table(REPO, jobs=4)
-        text, strs = c20_table.emit_lean(tab)
-        changed = c20_table.write_if_changed(os.path.join(LEAN, "PPLV", "Gen", "CIfaceTable.lean"), text)
-        with open(os.path.join(BUILD, "c20_table.json"), "w") as f:
-            json.dump(tab, f, sort_keys=True)
-        ctx.cov["translator_s"] = round(time.time() - tt, 1)
-        ctx.cov["translator_cache_hits"] = "%d/%d TUs" % (tab["cacheHits"], tab["tus"])
-        ctx.cov["lean_table_rewritten"] = changed
-        tp = time.time()
-        broken = ctx.prove([PROPS])
-        ctx.cov["prove_s"] = round(time.time() - tp, 1)
-        inc_path, inc_hash = c20_harness.write(tab, os.path.join(BUILD, "c20gen"))
-        if ctx.tier == "thorough":
-            broken += ctx.leanchecker([PROPS])
+    tab, broken, inc_path, inc_hash = translate(ctx)
     E = tab["entries"]
     ctx.cov.update(entry_points=len(E), translation_units=len(tab["files"]), catch_all_clauses=len(tab["catchAll"]),
                    error_codes=len(tab["errorCodes"]), try_blocks=sum(1 for f in E if f["try"]),
@@ -509,27 +555,16 @@ def run(ctx):
             print("  note: also broken: %s" % ", ".join(unexplained), flush=True)
 
     # ---- the real library
-    flags = ("-I" + os.path.dirname(inc_path), "-DC20_GEN_HASH=0x%s" % inc_hash)
-    tc = time.time()
-    hbin = ctx.compile_harness("c20_ciface.cc", flags=flags, c_iface=True, opt="-O0")
-    ctx.cov["harness_compile_s"] = round(time.time() - tc, 1)
+    hbin = harness_binary(ctx, inc_path, inc_hash)
     drv = ctx.ensure_pplv("pplv_c20")
     work = ctx.workdir()
     J = Judge(ctx, tab, REPO, hbin, seed)
     cases = 40 if ctx.tier == "quick" else 600
-    runs = []
-    if ctx.replay:
-        rp = json.load(open(ctx.replay))
-        runs.append(list(rp.get("harness_args") or ["--what", "all"]))
-    else:
-        runs.append(["--what", "sweep"])
-        runs.append(["--what", "dispatch"])
-        runs.append(["--what", "faults"])
-        runs.append(["--what", "timeouts"])
-        runs.append(["--what", "oracle", "--seed", str(seed), "--cases", str(cases)])
-        if ctx.tier == "thorough":
-            for s in range(1, 6):
-                runs.append(["--what", "oracle", "--seed", str(seed * 100 + s), "--cases", str(cases)])
+    runs = [["--what", "sweep"], ["--what", "dispatch"], ["--what", "faults"], ["--what", "timeouts"],
+            ["--what", "oracle", "--seed", str(seed), "--cases", str(cases)]]
+    if ctx.tier == "thorough":
+        for s in range(1, 6):
+            runs.append(["--what", "oracle", "--seed", str(seed * 100 + s), "--cases", str(cases)])
     th = time.time()
     for i, a in enumerate(runs):
         if "--seed" not in a:
